@@ -10,12 +10,13 @@ package geometry
 type VerifRunaway struct {
 	Site  string
 	Steps int
+	Ctx   []interface{} // the operands of the looping call
 }
 
-func verifStep(site string, n, bound int) int {
+func verifStep(site string, n, bound int, ctx ...interface{}) int {
 	n++
 	if n > bound {
-		panic(VerifRunaway{Site: site, Steps: n})
+		panic(VerifRunaway{Site: site, Steps: n, Ctx: ctx})
 	}
 	return n
 }
